@@ -7,7 +7,7 @@ from collections import Counter
 from .. import history
 from ..battery import call, _Raised
 from ..models import KEYS
-from ..observe import observe
+from ..observe import observe, fresh
 from ..refs import components
 
 TIERS = {"quick": 1000, "thorough": 15000}
@@ -41,7 +41,7 @@ def gen_hypergraph(rng):
         s = min(s, len(labels))
         pool = labels if style != "forest" else labels[: max(1, len(labels) // 2)] if rng.random() < 0.5 else labels[len(labels) // 2:] or labels
         s = min(s, len(pool))
-        h.add_edge(tuple(rng.sample(pool, s)))
+        h.add_edge(tuple(fresh(x) for x in rng.sample(pool, s)))  # label objects are created anew per hyperedge
     for n in labels:
         if rng.random() < 0.4:
             h.add_node(n)
@@ -55,7 +55,7 @@ def run_case(ctx, rng, idx):
     from hypergraphx.utils import cc
 
     if idx % 4 == 3:
-        kind = "DTM"[(idx // 4) % 3]
+        kind = "HDTM"[(idx // 4) % 4]
         cfg = history.Cfg(rng, kind)
         cfg.invalid_rate = 0
         cfg.avoid = {"copy", "clear"}
@@ -69,6 +69,26 @@ def run_case(ctx, rng, idx):
     else:
         kind = "H"
         h, uni = gen_hypergraph(rng)
+    evaluate(ctx, rng, idx, h, kind, "")
+    # second evaluation on the SAME object after an in-place edit that keeps the node and hyperedge counts
+    if kind == "H":
+        from ..mutate import same_count_edit
+
+        if same_count_edit(rng, h):
+            ctx.event("re-evaluated-after-in-place-edit")
+            evaluate(ctx, rng, idx, h, kind, ":after-in-place-edit")
+        lonely = [n for n in h.get_nodes() if not h.get_incident_edges(n)]
+        if lonely:  # removing a node that has no hyperedge at all goes through no edge-removal path
+            h.remove_node(rng.choice(lonely))
+            if h.get_nodes():
+                ctx.event("re-evaluated-after-removing-an-edgeless-node")
+                evaluate(ctx, rng, idx, h, kind, ":after-removing-edgeless-node")
+
+
+def evaluate(ctx, rng, idx, h, kind, phase):
+    from hypergraphx.measures import degree as dm
+    from hypergraphx.utils import cc
+
     K = KEYS[kind]
     S = observe(h)
     sizes = [K.size(k) for k in S.edges]
@@ -76,7 +96,7 @@ def run_case(ctx, rng, idx):
     filters = [None] + [("size", s) for s in range(0, mx + 2)] + [("order", s - 1) for s in range(0, mx + 2)]
 
     def wit(extra=None):
-        return {"kind": kind, "object": S.describe(), "extra": repr(extra)[:500]}
+        return {"kind": kind, "phase": phase, "object": S.describe(), "extra": repr(extra)[:500]}
 
     for f in filters:
         kw = {} if f is None else {f[0]: f[1]}
@@ -100,6 +120,9 @@ def run_case(ctx, rng, idx):
             d1 = call(h.degree_distribution, **kw)
             ctx.check("C08:degree", d1 == hist, f"C08:{kind}:degree_distribution(method)", lambda: wit((kw, d1, hist)))
         if kind != "H":
+            continue
+        if not S.nodes:
+            ctx.note("node-less hypergraph: components not judged")
             continue
         # ---------------- components (Hypergraph only) ----------------------------------
         ref = components(S.nodes, sel)
